@@ -4,7 +4,10 @@
      map_entry_name_eq_protoc     internal.MapEntry  = MapEntryName       (every byte string)
      oo_name_total / _is_synth    the X-prefix loop terminates within the fuel of the model and
                                   returns protoc's name for the same set of taken names
-     synthetic_oneof_names_fresh / _eq_protoc   the loop over the fields *)
+     synthetic_oneof_names_fresh / _eq_protoc   the loop over the fields
+   and two local facts of the descriptor construction (parser/result.go):
+     reserved_names_iff           addReservedNames, either spelling: what one reserved statement reports and records
+     range_max                    a range written with max ends at the limit handed in (half-open for messages) *)
 From Coq Require Import List NArith ZArith Bool Lia Arith FinFun.
 From PV Require Import Model.MiniProto Model.Lower Model.ProtocDescriptor.
 Import ListNotations.
@@ -234,3 +237,117 @@ Lemma c02_example :
   json_name [95;120] = [88] /\
   oo_name [[97]; [95;97]; [88;95;97]] [97] = Some [88;88;95;97].
 Proof. repeat split; vm_compute; reflexivity. Qed.
+
+(* ------------------------------------------------------------------------------------------ *)
+(* addReservedNames, both spellings: which list the syntax reads, and what the loop reports *)
+Definition spelled (syn : syntax) (strs idents : list name) : list name :=
+  match syn with Editions => idents | _ => strs end.
+Definition misspelled (syn : syntax) (strs idents : list name) : list name :=
+  match syn with Editions => strs | _ => idents end.
+
+Lemma reserve_loop_spec : forall ns names seen errs,
+  exists added dups,
+    reserve_loop ns names seen errs = (names ++ added, seen ++ added, errs ++ dups) /\
+    Forall (eq EReservedNameDup) dups /\
+    (forall x, In x (seen ++ added) <-> In x seen \/ In x ns) /\
+    (dups = [] <-> NoDup ns /\ forall x, In x ns -> ~ In x seen) /\
+    (dups = [] -> added = ns).
+Proof.
+  induction ns as [|n r IH]; intros names seen errs; cbn [reserve_loop].
+  - exists [], []. rewrite !app_nil_r. split; [reflexivity|]. split; [constructor|].
+    split; [intros x; cbn [In]; tauto|]. split; [|reflexivity].
+    split; [|reflexivity]. intros _. split; [constructor|intros x []].
+  - destruct (mem_name n seen) eqn:E.
+    + destruct (IH names seen (errs ++ [EReservedNameDup])) as (added & dups & Heq & Hd & Hin & Hiff & Hadd).
+      exists added, (EReservedNameDup :: dups). rewrite Heq, <- app_assoc. cbn [app].
+      split; [reflexivity|]. split; [constructor; [reflexivity|exact Hd]|].
+      split.
+      { intros x. rewrite Hin. cbn [In]. apply mem_name_In in E. split.
+        - intros [H|H]; [now left|right; now right].
+        - intros [H|[<-|H]]; [now left|now left|now right]. }
+      split; [|discriminate].
+      split; [discriminate|]. intros [_ Hdis]. exfalso. apply mem_name_In in E. exact (Hdis n (or_introl eq_refl) E).
+    + destruct (IH (names ++ [n]) (seen ++ [n]) errs) as (added & dups & Heq & Hd & Hin & Hiff & Hadd).
+      exists (n :: added), dups. rewrite Heq, <- !app_assoc. cbn [app].
+      split; [reflexivity|]. split; [exact Hd|].
+      assert (Hin' : forall x, In x (seen ++ n :: added) <-> In x seen \/ In x (n :: r)).
+      { intros x. specialize (Hin x). rewrite <- app_assoc in Hin. cbn [app] in Hin. rewrite Hin.
+        rewrite in_app_iff. cbn [In]. tauto. }
+      split; [exact Hin'|].
+      apply mem_name_false in E.
+      split.
+      * rewrite Hiff. split.
+        -- intros [Hnd Hdis]. split.
+           ++ constructor; [|exact Hnd]. intros Hr. apply (Hdis n Hr). apply in_app_iff. right. now left.
+           ++ intros x [<-|Hx]; [exact E|]. intros Hs. apply (Hdis x Hx). apply in_app_iff. now left.
+        -- intros [Hnd Hdis]. inversion Hnd as [|? ? Hn Hnd']; subst. split; [exact Hnd'|].
+           intros x Hx Hs. apply in_app_iff in Hs. destruct Hs as [Hs|[<-|[]]].
+           ++ exact (Hdis x (or_intror Hx) Hs).
+           ++ exact (Hn Hx).
+      * intros H. now rewrite (Hadd H).
+Qed.
+
+(* one reserved statement, either spelling: the wrong spelling is reported iff it is used; a duplicate is reported iff
+   the names written in the spelling of the syntax repeat or meet a name reserved by an earlier statement of the same
+   message / enum; afterwards exactly the earlier names and those of this statement count as reserved; without a
+   report the names are appended in source order *)
+Theorem reserved_names_iff_lemma : forall syn strs idents names seen names' seen' errs',
+  add_reserved_names syn strs idents names seen = (names', seen', errs') ->
+  let ns := spelled syn strs idents in
+  (In EReservedNameForm errs' <-> misspelled syn strs idents <> []) /\
+  (In EReservedNameDup errs' <-> ~ (NoDup ns /\ forall x, In x ns -> ~ In x seen)) /\
+  (errs' = [] <-> misspelled syn strs idents = [] /\ NoDup ns /\ forall x, In x ns -> ~ In x seen) /\
+  (forall x, In x seen' <-> In x seen \/ In x ns) /\
+  (exists added, names' = names ++ added /\ seen' = seen ++ added /\ (errs' = [] -> added = ns)).
+Proof.
+  intros syn strs idents names seen names' seen' errs' H ns.
+  set (ms := misspelled syn strs idents).
+  set (e0 := match ms with [] => [] | _ => [EReservedNameForm] end).
+  assert (H' : reserve_loop ns names seen e0 = (names', seen', errs')).
+  { subst ns ms e0. unfold add_reserved_names in H. destruct syn; exact H. }
+  clear H. destruct (reserve_loop_spec ns names seen e0) as (added & dups & Heq & Hd & Hin & Hiff & Hadd).
+  rewrite Heq in H'. inversion H'; subst names' seen' errs'. clear H'.
+  assert (Hform : In EReservedNameForm (e0 ++ dups) <-> ms <> []).
+  { rewrite in_app_iff. subst e0. split.
+    - intros [Hf|Hf]; [destruct ms; [destruct Hf|discriminate]|].
+      rewrite Forall_forall in Hd. specialize (Hd _ Hf). discriminate.
+    - intros Hne. left. destruct ms; [contradiction|now left]. }
+  assert (Hdup : In EReservedNameDup (e0 ++ dups) <-> dups <> []).
+  { rewrite in_app_iff. subst e0. split.
+    - intros [Hf|Hf]; [destruct ms; [destruct Hf|destruct Hf as [Hf|[]]; discriminate]|]. intros ->. destruct Hf.
+    - intros Hne. right. destruct dups as [|d ds]; [contradiction|]. inversion Hd; subst. now left. }
+  split; [exact Hform|]. split.
+  { rewrite Hdup. split.
+    - intros Hne HP. apply Hne. now apply Hiff.
+    - intros HnP ->. apply HnP. now apply Hiff. }
+  split.
+  { split.
+    - intros He. apply app_eq_nil in He. destruct He as [He0 Hdn]. split.
+      + subst e0. destruct ms; [reflexivity|discriminate].
+      + now apply Hiff.
+    - intros [Hms HP]. apply Hiff in HP. rewrite HP, app_nil_r. subst e0. now rewrite Hms. }
+  split; [exact Hin|].
+  exists added. split; [reflexivity|]. split; [reflexivity|].
+  intros He. apply app_eq_nil in He. destruct He as [_ Hdn]. exact (Hadd Hdn).
+Qed.
+
+(* ------------------------------------------------------------------------------------------ *)
+(* what max means: the upper limit handed to the range, for all three kinds of range *)
+Open Scope Z_scope.
+Theorem range_max_lemma : forall r, sr_max r = true ->
+  (forall mt, 1 <= sr_start r <= mt -> msg_range r mt = ((sr_start r, mt + 1), [])) /\
+  (int32_min <= sr_start r <= int32_max -> enum_range r = ((sr_start r, int32_max), [])).
+Proof.
+  intros [s e m] Hm. cbn [sr_max] in Hm. subst m. split.
+  - intros mt Hs. cbn [sr_start] in Hs. unfold msg_range, range_bounds, as_int32. cbn [sr_start sr_end sr_max].
+    replace (s <? 1) with false by (symmetry; apply Z.ltb_ge; lia).
+    replace (mt <? s) with false by (symmetry; apply Z.ltb_ge; lia).
+    cbn [orb andb]. replace (mt <? s) with false by (symmetry; apply Z.ltb_ge; lia).
+    destruct e; reflexivity.
+  - intros Hs. cbn [sr_start] in Hs. unfold enum_range, range_bounds, as_int32. cbn [sr_start sr_end sr_max].
+    replace (s <? int32_min) with false by (symmetry; apply Z.ltb_ge; lia).
+    replace (int32_max <? s) with false by (symmetry; apply Z.ltb_ge; lia).
+    cbn [orb andb]. replace (int32_max <? s) with false by (symmetry; apply Z.ltb_ge; lia).
+    destruct e; reflexivity.
+Qed.
+Close Scope Z_scope.
